@@ -19,6 +19,7 @@ CONSTANTS
   MaxOps = %(maxops)d
   Rich = %(rich)d
   OpSet = {%(opset)s}
+  Script <- %(script)s
 INVARIANTS Shape LiveView Unshared
 PROPERTIES KeepsValue NoAliasAfterSet SortOK BadIsNoop
 ACTION_CONSTRAINT Emit
@@ -33,10 +34,15 @@ CORE = ("hold", "set", "hsetF", "sort", "pop", "reverse", "goSetF", "goAppend", 
 DEEP = ("hold", "len", "push", "get", "hsetF")
 
 
-def plan(kind, len0=2, cap0=None, nh=2, maxops=3, rich=0, opset=(), lean=True, share=None):
+# directed histories for the element-wrapper cache: references taken, the slice shrunk below them, re-grown within the capacity,
+# the cache re-extended by a read further up, a re-allocating push, then a write through the old reference
+SCRIPTS = {"SA": 8, "SB": 8, "SC": 8, "SD": 8}       # Bridge.tla SA..SD (name: length); SN = no script
+
+
+def plan(kind, len0=2, cap0=None, nh=2, maxops=3, rich=0, opset=(), lean=True, share=None, script="SN"):
     """lean: replay a second time observing through the Go side only (kinds whose wrapper and host share one header)"""
     return dict(kind=kind, len0=len0, cap0=cap0 if cap0 is not None else len0, nh=nh, maxops=maxops, rich=rich, opset=tuple(opset),
-                lean=lean and kind not in BYVAL and kind != "graph", share=share)
+                lean=lean and kind not in BYVAL and kind != "graph", share=share, script=script)
 
 
 def plans(thorough):
@@ -56,13 +62,16 @@ def plans(thorough):
         out.append(plan(k, len0=2, cap0=c, maxops=4, lean=False))
     # five operations over the reference-handling core
     out.append(plan("ss", cap0=3, maxops=5, opset=CORE[:-1], lean=False))
-    out.append(plan("pss", len0=3, cap0=3, nh=1, maxops=7, opset=DEEP, lean=False))
+    out.append(plan("pss", len0=3, cap0=3, nh=1, maxops=5, opset=DEEP, lean=False))
+    for sc in sorted(SCRIPTS):
+        out.append(plan("pss", len0=3, cap0=3, nh=1, maxops=SCRIPTS[sc], script=sc, lean=False))
     return out
 
 
 def tag_of(p):
     return "%s-l%dc%d-h%d-m%d-r%d%s" % (p["kind"], p["len0"], p["cap0"], p["nh"], p["maxops"], p["rich"],
-                                        "-deep" if p["opset"] == DEEP else "-core" if p["opset"] else "")
+                                        ("-deep" if p["opset"] == DEEP else "-core" if p["opset"] else "") +
+                                        ("-" + p["script"] if p["script"] != "SN" else ""))
 
 
 def init_state(p):
@@ -97,7 +106,7 @@ def run_plan(binp, wd, p, tlc_workers, threads, thorough):
     t0 = time.time()
     gwd = os.path.join(wd, tag_of(p))
     os.makedirs(gwd, exist_ok=True)
-    cfg = CFG % dict(p, opset=", ".join('"%s"' % x for x in p["opset"]))
+    cfg = CFG % dict(p, opset=", ".join('"%s"' % x for x in p["opset"]), script=p.get("script", "SN"))
     init = init_state(p)
     g, st = edges.build_graph("Bridge", cfg, gwd, init, obs0=init, workers=tlc_workers, timeout=2400, heap="6g")
     t1 = time.time()
